@@ -44,6 +44,7 @@ import (
 	consensus "github.com/oasisprotocol/oasis-core/go/consensus/api"
 	"github.com/oasisprotocol/oasis-core/go/consensus/api/transaction"
 	"github.com/oasisprotocol/oasis-core/go/consensus/cometbft/api"
+	stakingapp "github.com/oasisprotocol/oasis-core/go/consensus/cometbft/apps/staking"
 	cmtcrypto "github.com/oasisprotocol/oasis-core/go/consensus/cometbft/crypto"
 	genesis "github.com/oasisprotocol/oasis-core/go/genesis/api"
 	symx "github.com/oasisprotocol/oasis-core/go/internal/verifsymx"
@@ -112,9 +113,32 @@ func (s *vC01Signer) ContextSign(ctx signature.Context, message []byte) ([]byte,
 // harness replacements (engine only, by redirect) of reflection based helpers
 func vC01RingIn(*channels.RingChannel) chan<- interface{} { return make(chan interface{}, 4096) }
 
-func vC01ParseGenesis(types.RequestInitChain) (*genesis.Document, error) {
-	return &genesis.Document{Height: 1, Time: vC01GenesisTime, ChainID: "verif-c01"}, nil
+func vC01ParseGenesis(types.RequestInitChain) (*genesis.Document, error) { return vC01Genesis(), nil }
+
+// vC01Genesis: with cfg staking=1 the genesis funds the user account and a second account.
+func vC01Genesis() *genesis.Document {
+	doc := &genesis.Document{Height: 1, Time: vC01GenesisTime, ChainID: "verif-c01"}
+	if symx.Cfg("staking", 0) == 1 {
+		user, other := staking.NewAddress(vC01UserKey()), staking.NewAddress(vC01NewSigner(8).Public())
+		doc.Staking.Parameters.FeeSplitWeightPropose = *quantity.NewFromUint64(2)
+		doc.Staking.Parameters.FeeSplitWeightVote = *quantity.NewFromUint64(1)
+		doc.Staking.Parameters.FeeSplitWeightNextPropose = *quantity.NewFromUint64(1)
+		doc.Staking.Parameters.MaxAllowances = 4
+		doc.Staking.Parameters.Thresholds = map[staking.ThresholdKind]quantity.Quantity{}
+		for _, k := range staking.ThresholdKinds {
+			doc.Staking.Parameters.Thresholds[k] = *quantity.NewFromUint64(0)
+		}
+		doc.Staking.TotalSupply = *quantity.NewFromUint64(3000)
+		doc.Staking.CommonPool = *quantity.NewFromUint64(1000)
+		doc.Staking.Ledger = map[staking.Address]*staking.Account{
+			user:  {General: staking.GeneralAccount{Balance: *quantity.NewFromUint64(1500)}},
+			other: {General: staking.GeneralAccount{Balance: *quantity.NewFromUint64(500)}},
+		}
+	}
+	return doc
 }
+
+func vC01UserKey() signature.PublicKey { return vC01NewSigner(9).Public() }
 
 func vC01ChainContext(*genesis.Document) string { return vC01Chain }
 
@@ -276,6 +300,13 @@ func vC01OpenReplica(id byte, d *vMemDB, root storage.Root) *vC01Replica {
 	}
 	mux.md.Subscribe(api.MessageExecuteSubcall, mux)
 	symx.Assert(mux.doRegister(vC01App{}) == nil, "doRegister failed")
+	if symx.Cfg("staking", 0) == 1 {
+		// the real staking application under the multiplexer: fee authentication, transfers, fee disbursement
+		app := stakingapp.New(s, mux.md)
+		symx.Assert(mux.doRegister(app) == nil, "doRegister(staking) failed")
+		app.Subscribe()
+		s.txAuthHandler = app
+	}
 	pk := signer.Public()
 	return &vC01Replica{mux: mux, signer: signer, address: []byte(cmtcrypto.PublicKeyToCometBFT(&pk).Address())}
 }
@@ -283,7 +314,7 @@ func vC01OpenReplica(id byte, d *vMemDB, root storage.Root) *vC01Replica {
 func (r *vC01Replica) initChain() []byte {
 	req := types.RequestInitChain{Time: vC01GenesisTime, ChainId: "verif-c01", InitialHeight: 1}
 	if !symx.Symbolic() {
-		raw, err := json.Marshal(&genesis.Document{Height: 1, Time: vC01GenesisTime, ChainID: "verif-c01"})
+		raw, err := json.Marshal(vC01Genesis())
 		symx.Assert(err == nil, "genesis document does not marshal")
 		req.AppStateBytes = raw
 	}
@@ -345,9 +376,19 @@ func vC01SameResult(a, b *vC01Result) bool {
 	return true
 }
 
-func vC01Tx(user *vC01Signer, name string, key byte) []byte {
+// vC01StakingTx: a transfer by the user with a symbolic amount and fee (nonce = number of blocks decided so far).
+func vC01StakingTx(user *vC01Signer, name string, nonce uint64) []byte {
+	other := staking.NewAddress(vC01NewSigner(8).Public())
+	fee := &transaction.Fee{Amount: *quantity.NewFromUint64(uint64(symx.Uint8(name + "Fee"))), Gas: 1000}
+	tx := staking.NewTransferTx(nonce, fee, &staking.Transfer{To: other, Amount: *quantity.NewFromUint64(8 * uint64(symx.Uint8(name+"Amount")))})
+	sigTx, err := transaction.Sign(user, tx)
+	symx.Assert(err == nil, "transaction.Sign failed")
+	return cbor.Marshal(sigTx)
+}
+
+func vC01Tx(user *vC01Signer, name string, key byte, nonce uint64) []byte {
 	// (the key is fixed per height and proposer, the value is symbolic: tree shapes are not the subject here)
-	tx := transaction.NewTransaction(0, nil, vC01MethodSet, []byte{key, symx.Uint8(name)})
+	tx := transaction.NewTransaction(nonce, nil, vC01MethodSet, []byte{key, symx.Uint8(name)})
 	sigTx, err := transaction.Sign(user, tx)
 	symx.Assert(err == nil, "transaction.Sign failed")
 	return cbor.Marshal(sigTx)
@@ -377,7 +418,19 @@ func VerifC01Mux() {
 			{Validator: types.Validator{Address: a.address, Power: 1}, SignedLastBlock: symx.Bool(symx.N("signedA", int(h)))},
 			{Validator: types.Validator{Address: b.address, Power: 1}, SignedLastBlock: symx.Bool(symx.N("signedB", int(h)))},
 		}
-		blkA := a.propose(h, 1, [][]byte{vC01Tx(user, symx.N("txA", int(h)), byte(16*h+1))}, votes)
+		// (with the staking application authenticating transactions the user's nonce advances by two per block)
+		var nonce uint64
+		withStaking := symx.Cfg("staking", 0) == 1
+		if withStaking {
+			nonce = uint64(2 * (h - 1))
+		}
+		txsA := [][]byte{vC01Tx(user, symx.N("txA", int(h)), byte(16*h+1), nonce)}
+		txsB := [][]byte{vC01Tx(user, symx.N("txB", int(h)), byte(16*h+2), nonce)}
+		if withStaking {
+			txsA = append(txsA, vC01StakingTx(user, symx.N("xferA", int(h)), nonce+1))
+			txsB = append(txsB, vC01StakingTx(user, symx.N("xferB", int(h)), nonce+1))
+		}
+		blkA := a.propose(h, 1, txsA, votes)
 		decided := blkA
 		secondRound := symx.Bool(symx.N("secondRound", int(h)))
 		sawFirst := symx.Bool(symx.N("validatorSawFirst", int(h)))
@@ -385,7 +438,7 @@ func VerifC01Mux() {
 			symx.Assert(v.process(blkA), "a valid proposal was rejected by a validator")
 		}
 		if secondRound {
-			blkB := b.propose(h, 2, [][]byte{vC01Tx(user, symx.N("txB", int(h)), byte(16*h+2))}, votes)
+			blkB := b.propose(h, 2, txsB, votes)
 			symx.Assert(b.process(blkB), "proposer rejected its own proposal")
 			symx.Assert(v.process(blkB), "a valid proposal was rejected by a validator that executed another proposal before")
 			symx.Assert(a.process(blkB), "a valid proposal was rejected by a node that had prepared another one")
@@ -405,7 +458,8 @@ func VerifC01Mux() {
 			res := n.deliver(decided)
 			if i == 0 {
 				ref = res
-				symx.Assert(len(res.txs) == 2 && res.txs[0].Code == types.CodeTypeOK && res.txs[1].Code == types.CodeTypeOK, "a valid transaction or the block metadata failed")
+				symx.Assert(len(res.txs) == len(decided.txs) && res.txs[len(res.txs)-1].Code == types.CodeTypeOK, "the block metadata transaction failed")
+				symx.Assert(withStaking || res.txs[0].Code == types.CodeTypeOK, "a valid transaction failed")
 				continue
 			}
 			symx.Assert(vC01SameResult(ref, res), "replicas executing the same block through different paths computed different results")
